@@ -1897,3 +1897,46 @@ package otto
 //@   invariant@1 len(valueArray) == found && found >= 0 && (limit > 0 ==> found < limit)
 //@   invariant@2 len(valueArray) == found && found >= 0 && (limit > 0 ==> found < limit)
 //@   at_call (*runtime).newArrayOf : limit > 0 ==> len(arg1) <= limit
+
+// ---------------------------------------------------------------------------
+// builtin_json.go (C11): what surrounds the JSON codec (encoding/json itself is a library)
+// ---------------------------------------------------------------------------
+
+// JSON.parse hands the decoder exactly the text of its argument (nothing stripped or
+// added) and maps the decoded tree node by node: null, booleans, strings and numbers to
+// the corresponding primitive.
+//@ func builtinJSONParse
+//@   props C11
+//@   nosafety
+//@   requires wfCall(call) && argsOK(call.ArgumentList) && call.runtime != nil
+//@   stable call.ArgumentList
+//@   calls (Value).string(_) as text
+//@   at_call encoding/json.Unmarshal : len(arg0) == len(text)
+//@ func builtinJSONParseWalk
+//@   props C11
+//@   nosafety
+//@   ensures isnil(rawValue) ==> result1 && result0.kind == valueNull
+//@   ensures is(rawValue, bool) ==> result1 && result0.kind == valueBoolean && result0.value == rawValue
+//@   ensures is(rawValue, string) ==> result1 && result0.kind == valueString && result0.value == rawValue
+//@   ensures is(rawValue, float64) ==> result1 && result0.kind == valueNumber && result0.value == rawValue
+
+// JSON.stringify: the property list built from an array replacer holds exactly the
+// accepted names (strings, numbers, String/Number objects), packed in order without
+// duplicates - every slot of the final list is a name that was accepted; a Number object
+// as the space argument is unboxed with ToNumber (the gap is a run of spaces), the gap
+// never exceeds 10.
+//@ func (FunctionCall).getArgument
+//@   inline
+//@ func (Value).numberValue
+//@   props C11 C05
+//@   requires jsValue(v)
+//@   ensures jsValue(result) && result.kind == valueNumber
+//@ func builtinJSONStringify
+//@   props C11
+//@   nosafety
+//@   abstract_callee getValueOfArrayIndex, (Value).number
+//@   requires wfCall(call) && argsOK(call.ArgumentList) && call.runtime != nil
+//@   stable call.ArgumentList
+//@   invariant@1 int(length) <= $i + 1 && seen != nil
+//@   invariant@1 forall j int :: 0 <= j && j < int(length) ==> has(seen, propertyList[j])
+//@   at_call strings.Repeat : 0 <= arg1 && arg1 <= 10
